@@ -59,6 +59,15 @@ type material struct {
 	// the rotation sub-workload: while rot is non-nil every named file slot of kind k resolves to rot[k], ONE path
 	// per kind whose content the workload replaces between calls
 	rot map[string]string
+
+	// the material-sizes sub-workload: filler roots (minted once per worker, one key for all of them) and the sized
+	// files that exist right now (built before a point is evaluated, removed afterwards)
+	fillerKey    *ecdsa.PrivateKey
+	fillers      []*x509.Certificate
+	fillerPEM    [][]byte
+	sizedRoots   map[string][]*x509.Certificate // sized CA file name -> every certificate the file holds
+	sizedSeq     int
+	sizedMissing bool // a sized file was asked for although it had not been built: a fault of the harness's plumbing
 }
 
 // path maps a slot content name to a file path; kind is crt | key | ca.
@@ -74,6 +83,12 @@ func (mt *material) path(name, kind string) string {
 		return filepath.Join(mt.dir, "does-not-exist-"+kind+".pem")
 	case "garbage":
 		return mt.files["garbage"]
+	}
+	if isSized(name) {
+		if _, built := mt.files[name+"."+kind]; !built {
+			mt.sizedMissing = true // nothing is raised by this worker any more (see materialGone)
+			return filepath.Join(mt.dir, "sized-file-not-built-"+kind+".pem")
+		}
 	}
 	return mt.files[name+"."+kind]
 }
